@@ -161,6 +161,9 @@ func Array(t *rapid.T, cfg DocCfg, depth int) jv.Val {
 		for i := range a {
 			if Chance(t, "odd", 1, 6) {
 				a[i] = Scalar(t)
+				if Chance(t, "oddnull", 1, 2) {
+					a[i] = jv.VNull()
+				}
 				continue
 			}
 			var ms []jv.Member
@@ -282,6 +285,44 @@ func (g *G) Expr(cur jv.Val, depth int) ast.Expr {
 		// pipe: right side directed by the left's value
 		l := g.Expr(cur, depth+1)
 		lv := g.valueOf(l, cur)
+		if lc, ok := l.(*ast.Chain); ok && lv.K == jv.Arr && len(lv.A) > 0 && Chance(t, "filterfirst", 1, 3) {
+			// ... in particular a bare filter whose condition also holds for
+			// null elements (negations, inequalities), followed by the idiom
+			open := false
+			for _, st := range lc.Steps {
+				if st.IsProjection() {
+					open = true
+				}
+			}
+			if !open {
+				el := rep(lv.A)
+				var cond ast.Expr
+				switch rapid.IntRange(0, 3).Draw(t, "nullcond") {
+				case 0:
+					cond = &ast.Unary{Op: "!", X: g.Chain(el, depth+2)}
+				case 1:
+					cond = ast.Bin("!=", g.Chain(el, depth+2), ast.Lit(Scalar(t)))
+				case 2:
+					cond = ast.Bin("==", g.Chain(el, depth+2), ast.Lit(jv.VNull()))
+				default:
+					cond = g.cond(el, depth+2)
+				}
+				l = lc.With(ast.Step{Kind: ast.SFilter, Cond: cond})
+				lv = g.valueOf(l, cur)
+			}
+		}
+		if lv.K == jv.Arr && Chance(t, "pipeidiom", 1, 3) {
+			// the idioms an implementation is tempted to fuse with what
+			// precedes the pipe: first / last / rest / count / flatten of a
+			// filtered, projected, sorted or sliced array
+			idiom := Pick(t, "idiom", [][]ast.Step{{{Kind: ast.SIndex, Index: 0}}, {{Kind: ast.SIndex, Index: -1}}, {{Kind: ast.SIndex, Index: 1}}, {{Kind: ast.SSlice, Start: ast.I64(1)}}, {{Kind: ast.SSlice, Stop: ast.I64(1)}},
+				{{Kind: ast.SFlatten}}, {{Kind: ast.SListStar}}, {{Kind: ast.SSlice, Stride: ast.I64(-1)}}, {{Kind: ast.SIndex, Index: 0}, {Kind: ast.SIndex, Index: 0}}})
+			var r ast.Expr = &ast.Chain{Head: ast.Head{Kind: ast.HImplicit}, Steps: idiom}
+			if Chance(t, "idiomfn", 1, 4) {
+				r = ast.Call(Pick(t, "idiomcall", []string{"length", "reverse", "to_array", "not_null", "type"}), ast.A(ast.Cur()))
+			}
+			return ast.Bin("|", l, r)
+		}
 		return ast.Bin("|", l, g.Expr(lv, depth+1))
 	case k == 11:
 		return ast.Bin(Pick(t, "logop", []string{"||", "&&"}), g.Expr(cur, depth+1), g.Expr(cur, depth+1))
